@@ -220,6 +220,8 @@ PROPS = {
     "C13": {
         "lean_modules": ["Props.C13s", "Props.Gen13", "Props.GenT13"],
         "groups": [{"name": "C13", "quick": 6000, "thorough": 200000},
+                   # the layout functions called from several goroutines at once (loaders render while frames are drawn)
+                   {"name": "C13par", "quick": 60, "thorough": 3000, "workers": 4},
                    {"name": "C13x", "quick": 0, "thorough": 6, "workers": 1}, {"name": "unicodeall", "quick": 0, "thorough": 1, "workers": 1}],
         "rule": "styled text from a cell grammar (words, runs of all IsSpace kinds, newlines, nested SGR attributes; 1 in 5 a hostile ESC/[/m string) x widths -3..250; "
                 "one case in six from the edges: one text wrapped at every width from 0 past its longest line (or at the widths around its line lengths and 80/120/200), paragraphs of 20..200 words with over-long words at 40..500 columns and through the wrap-then-snip pipeline, "
@@ -234,7 +236,9 @@ PROPS = {
         "lean_modules": ["Props.Gen17", "Props.Facts17", "Props.GenT17", "Props.Gen03m", "Props.GenT03m"],
         "groups": [{"name": "C17", "quick": 8000, "thorough": 300000},
                    # the floating-point operations the translated GetNumber is interpreted with, against Go's own
-                   {"name": "F64", "quick": 4000, "thorough": 400000}],
+                   {"name": "F64", "quick": 4000, "thorough": 400000},
+                   # the accessors called from many goroutines at once, as the constructors of a page's items do
+                   {"name": "C17par", "quick": 40, "thorough": 2000, "workers": 4}],
         "rule": "JSON documents with null/bool/number/string/array/object under keys k, m, z (numbers from two edge pools around 0, +-1, signed zeros, subnormals, 2^31, 2^32, 2^53, 2^63, 2^64 and their neighbouring doubles, zero fractions, cancelling exponents, over-long digit strings, random bit patterns and integers around powers of two; strings with control characters, timestamps, URLs, media types) x every accessor x present/absent keys; "
                 "half of the cases choose the accessor first and file under the key a value of the vocabulary it parses (RFC 3339 corners: leap second, offsets to +-24:00, lower-case t/z, fraction digits with '.' and ',', years 0000..10000, impossible dates, padding; well-formed timestamps and token/token media types drawn field by field; about 120 URLs that parse oddly; the four renderable media types and their near misses for GetMarkup), "
                 "then possibly damage it: C0/C1/ESC/bidi/zero-width characters at one to three places, only-removed characters, case changes, blank padding, tails up to 100 000 characters, doubling; strings spelled with \\u escapes, surrogate pairs and lone surrogates; natural-language maps (tags empty, und, upper case, malformed), @value objects, nesting to depth 100, arrays and objects of thousands of members; "
@@ -293,7 +297,9 @@ PROPS = {
     "C15": {
         "timeouts_not_mine": True,
         "lean_modules": ["Props.C13s"],
-        "groups": [{"name": "render", "quick": 2500, "thorough": 60000}],
+        "groups": [{"name": "render", "quick": 2500, "thorough": 60000},
+                   # documents rendered from several goroutines at once
+                   {"name": "renderpar", "quick": 40, "thorough": 1500, "workers": 4}],
         "rule": "documents from grammars of HTML (inline styles, links, media, blockquotes, lists, headings, pre, hr, unknown tags, character-reference injections), Markdown, gemtext and plain text with URLs x sequences of 1..4 (one in eight: 5..14) widths (with repeats and returns to earlier widths; -3..250); the same Markup value is rendered at each width in order; "
                 "one case in 22 is a long history of 20..400 widths on one Markup (1 up to 20..220 and back in steps of 1..4, every width between two sizes there and back twice, jumps among a few sizes incl. 80/79/81/0/-1, a random walk, back to 80 after every other size), "
                 "one in 15 keeps two or three Markup values alive (different documents, or the same text under the same or another media type) and renders them alternately for 4..23 steps (op renderpair); every output is also compared with the same document rendered at that width on a value that was never rendered before; "
